@@ -40,7 +40,13 @@ import c18_tie
 import impl
 from common import cstr, cbool, clist, cpair
 
-THEOREMS = ['C18_audit_globals_readonly', 'C18_audit_ord_only_ints',
+THEOREMS = ['C18_run_fresh_state', 'C18_history_independent',
+            'C18_shared_state_would_leak', 'C18_output_order_irrelevant',
+            'C18_volume_text_order_irrelevant',
+            'C18_remove_keys_order_irrelevant',
+            'C18_sorted_depends_on_set_only',
+            'C18_numbering_order_sensitive_partial',
+            'C18_audit_globals_readonly', 'C18_audit_ord_only_ints',
             'C18_audit_effects_allowlisted', 'C18_audit_fail_closed']
 TRUSTED = [
     'hand-written model coq/C18/Model.v (modelled, tied by execution only)',
@@ -503,7 +509,7 @@ def _sweep(res, tier, seed, rng, scratch):
 
 TIE_HEADER = ('From Coq Require Import List ZArith Bool.\n'
               'From T4V Require Import C18.Model C18.Exec.\n'
-              'Open Scope Z_scope.\n')
+              'Import ListNotations.\nOpen Scope Z_scope.\n')
 STAGE_ERRORS = ('CellConversionError', 'KeyError')
 
 
@@ -605,8 +611,11 @@ def model_tie(res, tier, rng, jobs, fresh_res, hashseeds):
         culprit = None
         for pos, (case, job) in enumerate(hist):
             val, _ = common.coq_eval(TIE_HEADER, f'check_conv {case}')
-            if val is not None and 'false' in val:
+            if val is None or 'false' in val:
                 culprit = (pos, job)
+                if os.environ.get('C18_DEBUG'):
+                    Path(os.environ['C18_DEBUG']).write_text(
+                        json.dumps({'case': case, 'job': job}))
                 break
         if culprit is None:
             what = ('the model agrees on every conversion of the history '
